@@ -2,6 +2,8 @@ import CoercionModel.Proofs.Validate
 import CoercionModel.Model.SkeletonsMore
 import CoercionModel.Generated.F12
 import CoercionModel.Proofs.TranslatedValidate
+import CoercionModel.Model.SkeletonsGlue
+import CoercionModel.Generated.F15
 set_option linter.unusedSimpArgs false
 /-
   C16 — Submit admits exactly the well-formed plans; rejects leave no trace.
@@ -101,5 +103,9 @@ theorem translated_order (p : VPlan) :
     level1 p = TranslatedValidate.kidsNode (.plan p) ∧ level2 p = (level1 p).flatMap TranslatedValidate.kidsNode ∧
     level3 p = (level2 p).flatMap TranslatedValidate.kidsNode :=
   TranslatedValidate.levels_are_queue_order p
+
+/-- the glue code this property's campaigns rest on (group `keysGlue` of Model/SkeletonsGlue: code no model mirrors) still has
+    the shape it was read with (regenerated from /repo on every run) -/
+theorem facts_glue_skeleton : Generated.F15.keysGlue = SkeletonsGlue.keysGlue := by rfl
 
 end Coercion.C16
